@@ -59,6 +59,11 @@ theorem variants_ranks (cs : List Str) (h : IsId cs) :
     · simp [Spec.Errors.category, hsp]
     · simp [Spec.Errors.variants, Spec.Errors.finalComponent, Spec.Errors.category, hsp, List.getLast?_eq_some_getLast]
 
+/-- the model is total: the shape of `_gen_error_variants`, `from_errors` and the registry were recognised -/
+theorem classify_defined (ids : List Str) : ∃ r, classify ids = some r := by
+  obtain ⟨reg, hreg⟩ : ∃ reg, Generated.C27.registry = some reg := ⟨_, rfl⟩
+  exact ⟨_, classify_eq reg hreg ids⟩
+
 /-- an empty error list gives the generic "unspecified" error -/
 theorem empty_unspecified : classify [] = some .unspecified := rfl
 
